@@ -211,8 +211,17 @@ def check_compute_ranges(ctx: Ctx, f: FunctionInfo, ranges_var: Optional[ast.Nam
     env = Env(facts)
     env.vars[k] = kk
 
-    def nonneg_elt(e: ast.AST) -> bool:
-        """a share: built from the weights, len(), sum(), non-negative constants with * / + int() round() only"""
+    def nonneg_elt(e: ast.AST, depth_: int = 0) -> bool:
+        """a share: built from the weights, len(), sum(), non-negative constants with * / + int() round() only (a helper method
+        whose body is one such expression of its parameters counts as that expression)"""
+        if isinstance(e, ast.Call) and isinstance(e.func, ast.Attribute) and isinstance(e.func.value, ast.Name) and e.func.value.id == "self" \
+                and f.cls is not None and depth_ < 2:
+            h = ctx.prog.lookup_method(f.cls, e.func.attr)
+            if h is not None:
+                body_ = [b_ for b_ in h.node.body if not (isinstance(b_, ast.Expr) and isinstance(b_.value, ast.Constant))]
+                if len(body_) == 1 and isinstance(body_[0], ast.Return) and body_[0].value is not None:
+                    return nonneg_elt(body_[0].value, depth_ + 1) and all(nonneg_elt(a_, depth_ + 1) for a_ in e.args)
+            return False
         for x in ast.walk(e):
             if isinstance(x, ast.BinOp) and not isinstance(x.op, (ast.Mult, ast.Div, ast.Add, ast.FloorDiv)):
                 return False
